@@ -3,6 +3,7 @@ package c08
 import (
 	"testing"
 
+	"verifharness/concw"
 	"verifharness/dbsim"
 	"verifharness/hookctl"
 	"verifharness/vkit"
@@ -29,5 +30,15 @@ func TestVerif_Histories(t *testing.T) {
 			r.Count("hook:"+p, c)
 		}
 	}
+	r.Finish()
+}
+
+// Lagging consumers in real time under the race detector: the collector (every 1 ms) must keep every deletion until the slowest
+// open iterator has been handed it.
+func TestVerifRace_LaggingConsumers(t *testing.T) {
+	r := vkit.Start(t, "C08", "lagging-consumers-race", "fault_enumeration", "as C07 consumers-race but consumers sleep up to 3 ms between Next calls and consume partially, so the collector runs many rounds between the deletion and its delivery; "+
+		"oracle: replay == snapshot after every drain (a deletion collected too early is a stale object in the replay); non-trivial = changes were delivered; distinct = (seed, case)")
+	r.Require("changes_delivered", "drain_checks")
+	r.ParallelCases(vkit.N(12, 300), 2, func(i int) { concw.RunConsumers(r, i, true) })
 	r.Finish()
 }
